@@ -45,6 +45,10 @@ def _is_disabled_class(model, un, clsname):
     return any(k == ("passlib.ifc", "DisabledHash") for k in model.mro((un, clsname)))
 
 
+from . import c12  # noqa: E402
+from .shared import Renamed  # noqa: E402
+
+
 def rule_c(model, rep):
     R = "C01.c-verify-returns"
     for un, q, fn in _all_verify_defs(model):
@@ -542,6 +546,38 @@ def rule_i(model, rep):
         rep.undecided(R, "<instance-count>", f"only {n} calls into the bcrypt library found in BcryptHasher")
 
 
+def rule_j(model, rep):
+    """hash() and verify() run the same `_calc_checksum`; they differ only in `self.use_defaults` (true while a *new* hash is made).
+    Whatever the algorithm consumes must therefore not be rebound inside a block that runs on one of the two paths only: a `secret`
+    re-encoded / cut / case-folded under `if self.use_defaults:` makes the stored digest one the verifier never recomputes"""
+    R = "C01.j-one-path-rebinding"
+    n = 0
+    for un, unit in model.units.items():
+        if not un.startswith(("passlib.handlers", "passlib.utils.handlers")):
+            continue
+        for q, fn in unit.functions():
+            if q.split(".")[-1] not in ("_calc_checksum", "_calc_checksum_raw") or unit.enclosing_class(fn) is None:
+                continue
+            ps = [a.arg for a in fn.args.args][1:]
+            if not ps:
+                continue
+            n += 1
+            bad = []
+            for blk in [x for x in walk_no_nested(fn) if isinstance(x, ast.If) and any(isinstance(y, ast.Attribute) and ast.unparse(y) in ("self.use_defaults",) for y in ast.walk(x.test))]:
+                for st in blk.body + blk.orelse:
+                    for a in ast.walk(st):
+                        if isinstance(a, (ast.Assign, ast.AugAssign)):
+                            tg = a.targets if isinstance(a, ast.Assign) else [a.target]
+                            for t in tg:
+                                if isinstance(t, ast.Name) and t.id in ps:
+                                    bad.append(f"line {a.lineno}: {ast.unparse(a)[:70]}")
+            rep.check(not bad, R, site(un, q), "; ".join(bad) or f"{ps} not rebound under `if self.use_defaults`",
+                      "the password (and the other inputs of the digest) are not rebound on the hash-time-only path",
+                      witness="lmhash.hash('caf\u00e9') no longer verifies 'caf\u00e9': the text is encoded before raw() case-folds it, on the hash path only")
+    if n < 40:
+        rep.undecided(R, "<instance-count>", f"only {n} _calc_checksum methods found, expected at least 40")
+
+
 def run(model, rep):
     rep.explanation = __doc__
     rep.assumptions = ["`secret` is str|bytes at _calc_checksum entry (validate_secret ran; checked by C05.b)",
@@ -556,5 +592,8 @@ def run(model, rep):
     rule_e(model, rep)
     rule_h(model, rep)
     rule_i(model, rep)
+    rule_j(model, rep)
+    c12.rule_copies(model, Renamed(rep, {"C12.g": "C01.k-libpass-helper-copies"}, "C01.x-"))
+    c12.rule_alphabets(model, Renamed(rep, {"C12.e": "C01.l-codec-alphabets", "C12.f": "C01.l-b64-helpers"}, "C01.x-"))
     rule_f(model, rep)
     rule_g(model, rep)
